@@ -74,8 +74,9 @@ def bounds(tier):
                 "A_len5_6": "none",
                 "B_models": [[2, 2]], "B_max_class": "doubles"}
     return {"A_max_len": 4, "A_names_per_space": 3,
-            "A_len5_6": "length 5,6 over names i,j,a,b,p (<=2 occ, <=2 virt, "
-                        "1 general), all groupings, all contracted subsets",
+            "A_len5_6": "length 5 and balanced length 6 (<= 1 general operator) "
+                        "over names i,j,a,b,p, all groupings, contracted "
+                        "subsets {none, all}, no rule sets",
             "B_models": [[2, 2], [3, 3], [3, 2], [2, 3]],
             "B_max_class": "triples"}
 
@@ -133,7 +134,10 @@ def generate(tier):
         mx = {"o": 2, "v": 2, "g": 1}
         for L in (5, 6):
             for w in _words(L, mx):
-                cases.append(("A", w))
+                if L == 6 and (sum(1 for k, _ in w if k == "+") != 3 or
+                               sum(1 for _, n in w if n == "p") > 1):
+                    continue    # balanced words, at most one general operator
+                cases.append(("A", w, "reduced"))
     cases.extend(_sandwich_cases(tier))
     return cases
 
@@ -256,6 +260,7 @@ def _model(no, nv, tag="", defs=None):
 
 def _run_word(case):
     word = case[1]
+    reduced = len(case) > 2
     L = len(word)
     names = []
     for _, n in word:
@@ -287,8 +292,15 @@ def _run_word(case):
         # sympy; that is still a legal input with value 0)
         expv = _word_expectation(word, groups, names, fs, rng)
         nontrivial = bool(expv)
-        for r in range(len(names) + 1):
-            for C in itertools.combinations(names, r):
+        subsets = [C for r in range(len(names) + 1)
+                   for C in itertools.combinations(names, r)]
+        if _general_in_no(word, groups) or reduced:
+            # known finding (the call raises for every variant) / reduced
+            # variant set of the long words: the two extreme contracted
+            # subsets only
+            subsets = [subsets[0], subsets[-1]]
+        for C in subsets:
+            if True:
                 T = tuple(n for n in names if n not in C)
                 # reference table over T
                 pos = {n: k for k, n in enumerate(names)}
@@ -345,7 +357,7 @@ def _run_word(case):
                     ok(f"len{L}:groups{len(groups)}:terms{min(nterms, 9)}"
                        f":d{int(delta)}", nontrivial, 1)
                     # ---- rules on the coefficient tensor
-                    if not C or res == 0:
+                    if not C or res == 0 or reduced:
                         continue
                     for rs in _rule_sets_a(C):
                         if rs is None:
